@@ -1105,18 +1105,18 @@ func runC09(c *Ctx) {
 	}
 
 	// ---- 1. quoteString ----
-	c09Strings(c)
+	c09Timed(c, "c09Strings", c09Strings)
 
 	// ---- 2. topoSort ----
-	c09Topo(c)
-	c09Exprs(c)     // ---- 2b. value expressions: FormatExp / ParseValExp (c09exp.go)
-	c09Calls(c)     // ---- 2c. call statements: CallStm.format / call_stm (c09call.go)
-	c09AuditDump(c) // ---- 2d. the AST dump below covers every field of the Go AST (c09audit.go)
-	c09Decl(c)      // ---- 2e. type names, parameter lists, struct and filetype declarations (c09decl.go)
-	c09Res(c)       // ---- 2f. stage clauses: src line, using (formatGB), retain (c09res.go)
-	c09Call2(c)     // ---- 2g. full call statements, return, retain, pipeline bodies (c09call2.go)
-	c09Stage(c)     // ---- 2h. whole stage declarations: Stage.format / the grammar's stage production (c09stage.go)
-	c09Pipe(c)      // ---- 2i. whole pipeline declarations incl. the reordering of calls (c09pipe.go)
+	c09Timed(c, "c09Topo", c09Topo)
+	c09Timed(c, "c09Exprs", c09Exprs)         // ---- 2b. value expressions: FormatExp / ParseValExp (c09exp.go)
+	c09Timed(c, "c09Calls", c09Calls)         // ---- 2c. call statements: CallStm.format / call_stm (c09call.go)
+	c09Timed(c, "c09AuditDump", c09AuditDump) // ---- 2d. the AST dump below covers every field of the Go AST (c09audit.go)
+	c09Timed(c, "c09Decl", c09Decl)           // ---- 2e. type names, parameter lists, struct and filetype declarations (c09decl.go)
+	c09Timed(c, "c09Res", c09Res)             // ---- 2f. stage clauses: src line, using (formatGB), retain (c09res.go)
+	c09Timed(c, "c09Call2", c09Call2)         // ---- 2g. full call statements, return, retain, pipeline bodies (c09call2.go)
+	c09Timed(c, "c09Stage", c09Stage)         // ---- 2h. whole stage declarations: Stage.format / the grammar's stage production (c09stage.go)
+	c09Timed(c, "c09Pipe", c09Pipe)           // ---- 2i. whole pipeline declarations incl. the reordering of calls (c09pipe.go)
 
 	// ---- 3. formatter monitors ----
 	progSeeds, _ := c08LoadSeeds(c)
@@ -1167,10 +1167,17 @@ func runC09(c *Ctx) {
 	r.note("parsable mutants formatted: %d of %d", parsable, m)
 
 	// ---- 4. include graphs ----
-	c09Includes(c)
+	c09Timed(c, "c09Includes", c09Includes)
 
 	// ---- 5. expanded rendering of COMPILED programs (what mrp records as _mrosource) ----
-	c09Expanded(c)
+	c09Timed(c, "c09Expanded", c09Expanded)
+}
+
+// c09Timed runs one part of the harness and notes its wall time in the evidence
+func c09Timed(c *Ctx, name string, f func(*Ctx)) {
+	t := time.Now()
+	f(c)
+	c.Res.note("part %s: %.1f s", name, time.Since(t).Seconds())
 }
 
 func c09CheckFormatReportOnly(c *Ctx, src []byte, path, origin string, strict bool, key string) {
